@@ -44,6 +44,9 @@ def main():
         errs = {p: r["why"] for p, r in out[m["id"]].items() if r["status"] == "analysis-error"}
         matrix[m["id"]] = {"prop": m["prop"], "note": m.get("note", ""), "caught_by": caught, "analysis_errors": errs}
     (here / "selftest_matrix.json").write_text(json.dumps({"matrix": matrix, "benign_alarms": bad}, indent=1, default=str))
+    skipped = sorted({v for v in out for r in out[v].values() if r["status"] == "selftest-skipped"})
+    if skipped:
+        print("CATALOGUE ROT: variants whose anchor text is not in the tree (never exercised):", skipped)
     print(f"{len(MUTANTS)} seeded, {len(BENIGN)} benign variants x {len(props)} properties")
     for b in bad:
         print("BENIGN VARIANT NOT SILENT:", b[0], b[1], b[2]["status"], b[2].get("rules"), b[2].get("why"))
